@@ -252,6 +252,7 @@ impl Vm {
     //@  requires old(self).fib.handlers_ok(), old(self).fib.stack.view.len() > 0
     //@  requires old(self).fib.exc_handlers@.len() > 0 ==> old(self).fib.exc_handlers@.last().init_stack_size < STACK_MAX
     //@  ensures old(self).fib.exc_handlers@.len() == 0 ==> r is Err && final(self).fib.stack == old(self).fib.stack && final(self).fib.frames == old(self).fib.frames && final(self).fib.exc_handlers@ == old(self).fib.exc_handlers@
+    //@  ensures @an_undelivered_exception_keeps_its_failure_address old(self).fib.exc_handlers@.len() == 0 ==> final(self).fib.error_ip == old(self).fib.error_ip
     //@  ensures old(self).fib.exc_handlers@.len() > 0 ==> r is Ok
     //@  ensures old(self).fib.exc_handlers@.len() > 0 ==> final(self).fib.exc_handlers@ == old(self).fib.exc_handlers@.drop_last()
     //@  ensures @catch_block_receives_the_exception_on_top_of_the_handlers_slots (old(self).fib.exc_handlers@.len() > 0 && old(self).fib.exc_handlers@.last().finally_ip != old(self).fib.exc_handlers@.last().catch_ip) ==> final(self).fib.stack.view == old(self).fib.stack.view.take(old(self).fib.exc_handlers@.last().init_stack_size as int).push(old(self).fib.stack.view.last())
@@ -265,6 +266,21 @@ impl Vm {
     //@  ensures final(self).fib.handlers_ok()
     //@  ensures @handler_runs_with_the_code_and_globals_of_its_own_frame old(self).fib.exc_handlers@.len() > 0 ==> final(self).view_ok()
     //@  ensures @caught_exception_leaves_no_failure_address (r is Ok && !final(self).handling_exception) ==> final(self).fib.error_ip is None
+    //@end
+
+    // A failing built-in operation: the error becomes an exception object and is delivered like a thrown value; if
+    // nobody catches it, the trace is built from the address of the failing instruction (C17), as for `throw`.
+    #[verifier::external_body]
+    fn new_root_obj_err_from_error(&mut self, error: Error) -> (r: Value)
+        ensures final(self).fib == old(self).fib, final(self).handling_exception == old(self).handling_exception, final(self).ip == old(self).ip, final(self).code == old(self).code
+    { unimplemented!() }
+    //@fn file=yarel/src/vm.rs path=Vm::try_handle_error ret=r props=C08,C17
+    //@  subst "let obj_err = self.new_root_obj_err_from_error(error); self.push(Value::ObjInstance(obj_err.as_gc()));" => "let obj_err = self.new_root_obj_err_from_error(error); self.push(obj_err);"
+    //@  requires old(self).fib.handlers_ok(), old(self).fib.stack.view.len() < STACK_MAX
+    //@  requires old(self).fib.exc_handlers@.len() > 0 ==> old(self).fib.exc_handlers@.last().init_stack_size < STACK_MAX
+    //@  ensures @a_failing_operation_is_delivered_to_the_innermost_handler old(self).fib.exc_handlers@.len() > 0 ==> r is Ok && final(self).fib.exc_handlers@ == old(self).fib.exc_handlers@.drop_last() && final(self).ip == old(self).fib.exc_handlers@.last().catch_ip
+    //@  ensures @an_uncaught_failure_reports_the_address_of_the_failing_instruction old(self).fib.exc_handlers@.len() == 0 ==> r is Err && final(self).fib.error_ip == Some(old(self).ip)
+    //@  ensures final(self).fib.handlers_ok()
     //@end
 
     // throw: marks the exception as in flight and delivers it
